@@ -106,7 +106,18 @@ def _simkey(x):
     return (3, repr(x))
 
 
-class SimSet(set):
+class _SimSetMeta(type):
+    """the name `set` planted in the productmd modules may also be used there as a TYPE (isinstance(x, set)): every real
+    set must pass such a test"""
+
+    def __instancecheck__(cls, inst):
+        return isinstance(inst, set)
+
+    def __subclasscheck__(cls, sub):
+        return issubclass(sub, set)
+
+
+class SimSet(set, metaclass=_SimSetMeta):
     """A set whose ITERATION ORDER is chosen by the run's PRNG.
 
     Membership, union, equality... are the inherited C implementation.  Only
